@@ -76,4 +76,3 @@ func runC21(c *mon.Ctx) {
 	arm("TLMON_SKIP_HOSTILE", func() { runHostile(c, reg, c.N(1, 10), c.N(40, 1000), c.N(5, 6)) })
 	wg.Wait()
 }
-
